@@ -186,16 +186,53 @@ func (w *wspec) build(e *env) vxfw.Widget {
 	panic("kind")
 }
 
+// rle prints a Coq list, writing runs of >= 8 equal items as (zrepeat x n)
+func rle(items []string) string {
+	var parts []string
+	var lit []string
+	flush := func() {
+		if len(lit) > 0 {
+			parts = append(parts, "["+strings.Join(lit, ";")+"]")
+			lit = nil
+		}
+	}
+	for i := 0; i < len(items); {
+		j := i
+		for j < len(items) && items[j] == items[i] {
+			j++
+		}
+		if j-i >= 8 {
+			flush()
+			parts = append(parts, fmt.Sprintf("(zrepeat %s %d)", items[i], j-i))
+		} else {
+			lit = append(lit, items[i:j]...)
+		}
+		i = j
+	}
+	flush()
+	if len(parts) == 0 {
+		return "[]"
+	}
+	if len(parts) == 1 {
+		return parts[0]
+	}
+	return "(" + strings.Join(parts, " ++ ") + ")"
+}
+
+func coqLine(l []ch) string {
+	cs := make([]string, len(l))
+	for j, c := range l {
+		cs[j] = "(" + hx.Z(int64(c.G)) + "," + hx.Z(int64(c.W)) + ")"
+	}
+	return rle(cs)
+}
+
 func coqLines(ls [][]ch) string {
 	out := make([]string, len(ls))
 	for i, l := range ls {
-		cs := make([]string, len(l))
-		for j, c := range l {
-			cs[j] = "(" + hx.Z(int64(c.G)) + "," + hx.Z(int64(c.W)) + ")"
-		}
-		out[i] = "[" + strings.Join(cs, ";") + "]"
+		out[i] = coqLine(l)
 	}
-	return "[" + strings.Join(out, ";") + "]"
+	return rle(out)
 }
 
 func (w *wspec) coq() string {
@@ -213,7 +250,7 @@ func (w *wspec) coq() string {
 		if len(w.lines) > 0 {
 			l = w.lines[0]
 		}
-		return "(WField " + coqLines([][]ch{l})[1:len(coqLines([][]ch{l}))-1] + ")"
+		return "(WField " + coqLine(l) + ")"
 	case "list":
 		its := make([]string, len(w.Items))
 		for i, it := range w.Items {
@@ -276,7 +313,7 @@ func (w *wspec) anyBad() bool {
 // list would have passed.
 func (w *wspec) recordUndrawn(e *env, ctx vxfw.DrawContext) {
 	switch w.Kind {
-	case "text", "rich", "field":
+	case "text", "rich", "field", "button":
 		if !w.drawn {
 			w.record(e, ctx)
 		}
@@ -320,15 +357,44 @@ func observeSurface(e *env, s vxfw.Surface) *onode {
 }
 
 func (o *onode) coq() string {
-	cs := make([]string, len(o.Cells))
-	for i, c := range o.Cells {
-		cs[i] = fmt.Sprintf("(%d,(%s,%s))", c[0], hx.Z(int64(c[1])), hx.Z(int64(c[2])))
+	var parts []string
+	var lit []string
+	flush := func() {
+		if len(lit) > 0 {
+			parts = append(parts, "["+strings.Join(lit, ";")+"]")
+			lit = nil
+		}
+	}
+	cs := o.Cells
+	for i := 0; i < len(cs); {
+		j := i + 1
+		if j < len(cs) {
+			stride := cs[j][0] - cs[i][0]
+			for j < len(cs) && cs[j][1] == cs[i][1] && cs[j][2] == cs[i][2] && cs[j][0]-cs[j-1][0] == stride {
+				j++
+			}
+			if j-i >= 8 {
+				flush()
+				parts = append(parts, fmt.Sprintf("(zrun %d %d %d (%s,%s))", cs[i][0], stride, j-i, hx.Z(int64(cs[i][1])), hx.Z(int64(cs[i][2]))))
+				i = j
+				continue
+			}
+		}
+		lit = append(lit, fmt.Sprintf("(%d,(%s,%s))", cs[i][0], hx.Z(int64(cs[i][1])), hx.Z(int64(cs[i][2]))))
+		i++
+	}
+	flush()
+	cells := "[]"
+	if len(parts) == 1 {
+		cells = parts[0]
+	} else if len(parts) > 1 {
+		cells = "(" + strings.Join(parts, " ++ ") + ")"
 	}
 	ks := make([]string, len(o.Kids))
 	for i, k := range o.Kids {
 		ks[i] = hx.Tuple(hx.Z(int64(k.Col)), hx.Z(int64(k.Row)), hx.Z(int64(k.Z)), k.T.coq())
 	}
-	return fmt.Sprintf("(ONode %d %d %d [%s] %s)", o.W, o.H, o.N, strings.Join(cs, ";"), hx.List(ks))
+	return fmt.Sprintf("(ONode %d %d %d %s %s)", o.W, o.H, o.N, cells, hx.List(ks))
 }
 
 func (o *onode) json() interface{} {
@@ -446,9 +512,6 @@ func drawCase(s *hx.Stream, w *wspec, maxw, maxh int, weird bool, tags ...string
 		e.chars = weirdChars
 	}
 	ctx := vxfw.DrawContext{Max: vxfw.Size{Width: uint16(maxw), Height: uint16(maxh)}, Characters: e.chars}
-	if w.Kind == "button" { // the button builds its own Text: its scanner runs at Max.Width
-		w.record(e, ctx)
-	}
 	widget := w.build(e)
 	var obs *onode
 	t0 := time.Now()
@@ -553,9 +616,11 @@ func drawStream() *hx.Stream {
 		}
 	}
 	// very large contents: more than 65535 lines / columns (uint16 counters)
-	if true {
+	if cfg.Thorough() {
 		drawCase(s, &wspec{Kind: "text", Soft: false, Content: strings.Repeat("a\n", 65540)}, 65535, 65535, false, "huge")
 		drawCase(s, &wspec{Kind: "text", Soft: true, Content: strings.Repeat("b\n", 65540)}, 3, 65535, false, "huge")
+	}
+	{
 		drawCase(s, &wspec{Kind: "rich", Soft: false, Segs: []string{strings.Repeat("c", 65540)}}, 65535, 65535, false, "huge")
 		drawCase(s, &wspec{Kind: "text", Soft: false, Content: strings.Repeat("a\n", 300)}, 65535, 256, false, "huge")
 	}
